@@ -311,6 +311,48 @@ Section Plumbing.
   Qed.
 End Plumbing.
 
+(** ---- Part 2b: PythonJob.call — resources reachable in the arguments are one more source of mentions ---------- *)
+Lemma call_ops_split j args res r : In r (flat_map reach args) ->
+  exists before after, call_ops j args res = before ++ Mention j r :: after.
+Proof.
+  intros Hin. apply in_split in Hin. destruct Hin as (l1 & l2 & Hl). unfold call_ops. rewrite Hl.
+  exists (map (Mention j) l1), (map (Mention j) l2 ++ [Mention j res]).
+  rewrite map_app. cbn [map]. rewrite <- app_assoc. reflexivity.
+Qed.
+
+(** every resource reachable in the arguments of a call (at any nesting depth) that belongs to another job: all its files
+    become inputs of the calling job *)
+Theorem call_argument_becomes_input (info : rid -> rinfo) pre j args res post st r p :
+  run_ops info (init) (pre ++ call_ops j args res ++ post) = inl st ->
+  In r (flat_map reach args) -> r_src (info r) = Some p -> p <> j ->
+  incl (expand info false r) (inputs (st j)).
+Proof.
+  intros Hrun Hin Hs Hne. destruct (call_ops_split j args res r Hin) as (b & a & E). rewrite E in Hrun.
+  rewrite <- app_assoc in Hrun. cbn [app] in Hrun. rewrite app_assoc in Hrun.
+  exact (reference_becomes_input info _ j r _ st p Hrun Hs Hne).
+Qed.
+
+(** ... and each of those files is downloaded from exactly where its producer uploads it, the caller being a child of the producer *)
+Theorem call_argument_downloaded (info : rid -> rinfo) pre j args res post st r p f :
+  wf info -> run_ops info (init) (pre ++ call_ops j args res ++ post) = inl st ->
+  In r (flat_map reach args) -> r_src (info r) = Some p -> p <> j -> In f (expand info false r) ->
+  In ((RemoteTmp, f), (LocalTmp, f)) (job_input_files info (st j)) /\
+  In ((LocalTmp, f), (RemoteTmp, f)) (job_output_files (st p)) /\
+  In p (job_parents (st j)).
+Proof.
+  intros Hwf Hrun Hin Hs Hne Hf.
+  assert (Hi : In f (inputs (st j))) by (exact (call_argument_becomes_input info pre j args res post st r p Hrun Hin Hs Hne f Hf)).
+  assert (Hsf : r_src (info f) = Some p) by (rewrite (expand_src info false r f Hwf Hf); exact Hs).
+  destruct (upload_eq_download info _ st Hwf Hrun j f p Hi Hsf) as (H1 & H2 & H3 & _). auto.
+Qed.
+
+Example call_example :
+  let info := fun r => match r with 0 => {| r_src := Some 1; r_members := []; r_group := None |}
+                                   | _ => {| r_src := Some 0; r_members := []; r_group := None |} end in
+  exists st, run_ops info init ([Mention 1 0] ++ call_ops 0 [AVal; ASeq [AVal; ASeq [ASeq [ARes 0]]]] 1 ++ []) = inl st /\
+             inputs (st 0) = [0] /\ deps (st 0) = [1].
+Proof. eexists. split; [vm_compute; reflexivity|]. split; reflexivity. Qed.
+
 (** ---- Part 3: job directories and paths -------------------------------------------------------------------- *)
 Lemma first_new_spec used stream t more : first_new used stream = Some (t, more) -> ~ In t used.
 Proof.
